@@ -47,6 +47,10 @@ def gen_case(rng):
     grid = rng.choice([(0.0, 14.0, 1.0), (0.0, 14.0, 0.5), (2.0, 9.0, 0.25), (3.0, 3.0, 1.0), (0.0, 1.0, 0.125), (-2.0, 16.0, 3.0), (0.0, 14.0, 0.1), (1.1, 2.3, 0.3)])
     lo = rng.choice([0.0, 0.0, 2.0, -1.0, 5.5, -50.0, -200.0])
     hi = lo + rng.choice([14.0, 8.0, 3.0, 0.5] if lo > -50.0 else [100.0, 450.0])
+    if lo <= -50.0:
+        # (10 ** x overflows beyond x = 308 - Python raises OverflowError -, so the extreme windows are combined with unit charges only: with
+        # |q| = 3 a pH of -200 already needs 10 ** 630; see DESIGN A.9)
+        gs = [((1 if q > 0 else -1), pk, mp, t) for q, pk, mp, t in gs]
     # precisions down to 1e-12: still above the spacing of binary64 numbers in these windows (2.8e-14 at 250), so that the stated
     # precision can be met at all; below the spacing no binary64 answer can satisfy the property (see DESIGN A.9)
     prec = rng.choice([1e-4, 1e-4, 1e-2, 1e-6, 0.5, 1e-8, 1e-10, 1e-12, 2e-4, 0.003, 0.05, 0.3])
